@@ -18,7 +18,9 @@ def ui_events(ctx, res, frames=True):
     pinned = [["start_alice", "0", "enter"], ["start_n2", "9", "9", "9", "9", "9", "9", "9", "9", "9", "9", "9", "9", "9", "9", "9", "9", "9", "9", "9", "9", "enter"],
               ["start_alice", "colon", "feed_f", "enter", "j", "sp", "h", "l"], ["start_alice", "1", "dot", "k", "k", "g", "o"],
               ["start_n2", "k", "1", "enter", "2", "dot", "h", "h", "l"], ["start_alice", "colon", "open_bad", "enter", "sp", "0", "dot"],
-              ["start_alice", "p", "b", "c", "r", "a", "j", "a", "j", "o", "c"]]
+              ["start_alice", "p", "b", "c", "r", "a", "j", "a", "j", "o", "c"],
+              ["start_alice", "colon", "x", "hi", "hi", "bs", "bs", "bs", "bs", "j"], ["start_n2", "colon", "hi", "bs", "open_alice", "enter", "j", "sp"],
+              ["start_n2", "sp", "c", "h", "r", "h", "l", "c", "j", "g", "k", "sp", "h", "h", "h"]]
     evs, rc, txt = run_harness(ctx, "ui", "TestVerifKeys", {"sessions": pinned + sessions, "wild": 60 if q else 600, "frames": frames},
                                timeout=3000, allow_fail=True)
     if rc != 0:
